@@ -405,6 +405,13 @@ impl<'tcx> Dumper<'tcx> {
             }
             _ => {}
         }
+        // a pointer to a `static` item: name the static
+        if let Const::Val(rustc_middle::mir::ConstValue::Scalar(rustc_middle::mir::interpret::Scalar::Ptr(ptr, _)), _) = c.const_ {
+            let aid = ptr.provenance.alloc_id();
+            if let Some(rustc_middle::mir::interpret::GlobalAlloc::Static(sd)) = tcx.try_get_global_alloc(aid) {
+                o.push(("static", J::Str(self.path(sd))));
+            }
+        }
         let disp = ty::print::with_no_trimmed_paths!(format!("{}", c.const_));
         o.push(("v", J::Str(disp)));
         // evaluated value of named constants (cheap: literals and simple consts)
